@@ -78,6 +78,16 @@ class Gen:
         self.nested_ws, self.embed, self.nest_aligns = nested_ws, embed, nest_aligns
         self.budget = 120      # tables per tree: beyond it only required heavy fields are generated
         self.pool = [[]]      # per open buffer: completed shareable nodes (strings, tables)
+        self.long_vectors = 0.0   # probability that an offset / union vector gets 20..130 elements (the builder's stacks grow while it is open)
+
+    def ocount(self, deep, small):
+        """element count of a string / table / union vector"""
+        r = self.r
+        if deep: return 0
+        if self.long_vectors and r.random() < self.long_vectors:
+            self.budget += 60
+            return r.choice([20, 25, 31, 40, 50, 63, 64, 79, 100, 130])
+        return r.choice(small)
 
     def string(self):
         r = self.r
@@ -114,11 +124,13 @@ class Gen:
                 n = r.choice([0, 0, 1, 2, 3, 5] + ([64, 1000] if self.big else []))
                 v = Node("v", esz=f["a"], align=max(1, f["b"]), data=rbytes(r, n * f["a"]))
             elif k == "sv":
-                v = Node("o", items=[self.string() for _ in range(r.choice([0, 1, 2, 3]))])
+                v = Node("o", items=[self.string() for _ in range(self.ocount(False, [0, 1, 2, 3]))])
             elif k == "t":
                 v = self.table(f["a"], depth + 1)
             elif k == "tv":
-                v = Node("o", items=[self.table(f["a"], depth + 2) for _ in range(0 if deep else r.choice([0, 1, 2]))])
+                cnt = self.ocount(deep, [0, 1, 2])
+                # the elements of a long vector are leaves, so that the tree stays small
+                v = Node("o", items=[self.table(f["a"], (depth + 2) if cnt < 10 else self.maxdepth) for _ in range(cnt)])
             elif k == "u":
                 ms = self.unions[f["a"]]
                 m = r.choice(ms + [None]) if ms and not deep else None
@@ -131,9 +143,10 @@ class Gen:
             elif k == "uv":
                 ms = self.unions[f["a"]]
                 items = []
-                for _ in range(0 if deep else r.choice([0, 1, 2, 3])):
+                cnt = self.ocount(deep, [0, 1, 2, 3])
+                for _ in range(cnt):
                     m = r.choice(ms + [None]) if ms else None
-                    items.append((0, Node("N"), None) if m is None else (m["code"] & 0xff, self.member(m, depth + 1), m))
+                    items.append((0, Node("N"), None) if m is None else (m["code"] & 0xff, self.member(m, (depth + 1) if cnt < 10 else self.maxdepth), m))
                 v = Node("W", items=items)
             elif k == "nt":
                 if r.random() < self.embed:
